@@ -34,6 +34,8 @@ HOSTILE = """
 #[allow(dead_code)] pub struct Some;
 #[allow(dead_code)] pub struct Target;
 #[allow(dead_code)] pub fn drop() {}
+#[allow(dead_code)] pub trait HostileAssoc { fn m0() {} fn m1() {} fn m2() {} fn m3() {} fn m4() {} fn m5() {} fn m6() {} fn m7() {} fn subj() {} }
+impl<HostileT: ?::core::marker::Sized> HostileAssoc for HostileT {}
 #[allow(unused_imports)] use ::core::borrow::{Borrow as _, BorrowMut as _};
 #[allow(unused_imports)] use ::core::ops::{Deref as _, DerefMut as _};
 #[allow(unused_imports)] use ::core::convert::{AsMut as _, Into as _, From as _};
@@ -327,7 +329,7 @@ pub fn run() {
 def run(tier, seed):
     rep = core.Report(PROP, tier, seed)
     rep.rule = ("benign/hostile twins from the fn/mod generator (all deps forms, sync/async), the leaf-trait generator (Self/ref/Borrow, "
-                "async_trait) and the impl-block generator (static/dynamic); the hostile twin adds 22 local items named like every path "
+                "async_trait) and the impl-block generator (static/dynamic); the hostile twin adds 23 local items (one a blanket-implemented trait whose associated functions are named like the methods) named like every path "
                 "segment the macro uses (Impl, core, entrait, std, Future, Send, Sync, Sized, AsRef, Borrow, Unimock, Box, Pin, ...); both "
                 "feature settings; generated traits named Sync / Send / Future / AsRef; a #![no_std] library crate with fn, mod, leaf trait "
                 "(Self/ref/Borrow), static and dynamic impl blocks driven from a std binary. non-trivial = every hostile twin / no_std case")
